@@ -464,12 +464,23 @@ func runC17(c *RuleCtx) {
 	}
 	if f := c.MustFn("B14", "(*MessageCache).Shift"); f != nil {
 		g := p.Graph(f)
-		// (a) the last slot is expired
-		var lastLoop *ast.RangeStmt
-		for _, r := range p.RangesOver(f, func(v *V) bool {
-			return v.Kind == "index" && v.Args[0].IsField("MessageCache.history") && v.Args[1].Kind == "op" && v.Args[1].Name == "-" && v.Args[1].Args[0].Kind == "len" && v.Args[1].Args[1].Name == "1"
-		}) {
-			lastLoop = r
+		// (a) the last slot is expired: a loop (range or index form) over history[len(history)-1]
+		isLastSlot := func(v *V) bool {
+			return v != nil && v.Kind == "index" && v.Args[0].IsField("MessageCache.history") && v.Args[1].Kind == "op" && v.Args[1].Name == "-" &&
+				v.Args[1].Args[0].Kind == "len" && v.Args[1].Args[0].Args[0].IsField("MessageCache.history") && v.Args[1].Args[1].Name == "1"
+		}
+		var lastLoop ast.Stmt
+		for _, l := range p.LoopsOver(f, isLastSlot) {
+			lastLoop = l
+		}
+		loopStart := func(l ast.Stmt) ast.Node {
+			switch x := l.(type) {
+			case *ast.RangeStmt:
+				return x.X
+			case *ast.ForStmt:
+				return x.Init
+			}
+			return l
 		}
 		if lastLoop == nil {
 			c.Bad("B14", f.Name, "last slot expired", f.Decl, "Shift does not iterate over history[len-1]")
@@ -478,7 +489,7 @@ func runC17(c *RuleCtx) {
 				ok, why := p.LoopBodyMust(f, lastLoop, nil, func(n ast.Node) bool { return isDeleteOf(p, f, n, fld) })
 				c.Check(ok, "B14", f.Name, "expired entries removed from "+fld, lastLoop, why, why)
 			}
-			ok, _ := g.MustPass(g.Entry(), PassOpts{}, func(n ast.Node) bool { return n == ast.Node(lastLoop.X) })
+			ok, _ := g.MustPass(g.Entry(), PassOpts{}, func(n ast.Node) bool { return n == loopStart(lastLoop) })
 			c.Check(ok, "B14", f.Name, "expiry on every Shift", lastLoop, "on every path from entry", "Shift can return without expiring the last slot")
 		}
 		// (b) shift loop and (c) slot 0 cleared, on every path
@@ -516,8 +527,36 @@ func runC17(c *RuleCtx) {
 			}
 			return true
 		})
-		if shiftLoop == nil {
-			c.Bad("B14", f.Name, "slots shifted", f.Decl, "no loop moving history[i] to history[i+1]")
+		// … or the builtin copy(history[1:], history[:len(history)-1]) (overlap-safe by definition)
+		var shiftCopy *ast.CallExpr
+		for _, cs := range p.FuncCalls(f, false) {
+			if cs.Name != "builtin.copy" || len(cs.Call.Args) != 2 {
+				continue
+			}
+			dst, src := p.R(f).Val(cs.Call.Args[0]), p.R(f).Val(cs.Call.Args[1])
+			hist := func(v *V) bool { return v != nil && v.Kind == "slice" && v.Args[0].IsField("MessageCache.history") }
+			if !hist(dst) || !hist(src) {
+				continue
+			}
+			lenM1 := func(v *V) bool {
+				return v.Kind == "op" && v.Name == "-" && v.Args[0].Kind == "len" && v.Args[0].Args[0].IsField("MessageCache.history") && v.Args[1].Name == "1"
+			}
+			lowNone := func(v *V) bool { return v.Name == "_" || v.IsConst("0") }
+			if dst.Args[1].IsConst("1") && dst.Args[2].Name == "_" && lowNone(src.Args[1]) && lenM1(src.Args[2]) {
+				shiftCopy = cs.Call
+			}
+		}
+		if shiftLoop == nil && shiftCopy != nil {
+			okr, _ := g.MustPass(g.Entry(), PassOpts{}, func(n ast.Node) bool { return contains(n, shiftCopy) })
+			c.Check(okr, "B14", f.Name, "slots shifted on every Shift", shiftCopy, "on every path", "Shift can return without shifting")
+			c.Check(true, "B14", f.Name, "shift runs from len-2 down to 0", shiftCopy, "copy(history[1:], history[:len-1]) moves every slot up by one", "")
+			if lastLoop != nil {
+				ip, _ := g.Locate(shiftCopy)
+				okd := g.DominatedByNode(ip, func(n ast.Node) bool { return n == loopStart(lastLoop) })
+				c.Check(okd, "B14", f.Name, "expiry before shifting", shiftCopy, "the expiry loop dominates the shift", "slots are shifted before the last one is expired")
+			}
+		} else if shiftLoop == nil {
+			c.Bad("B14", f.Name, "slots shifted", f.Decl, "no loop moving history[i] to history[i+1] (and no copy(history[1:], history[:len-1]))")
 		} else {
 			okr, _ := g.MustPass(g.Entry(), PassOpts{}, func(n ast.Node) bool { return shiftLoop.Init != nil && n == ast.Node(shiftLoop.Init) })
 			c.Check(okr, "B14", f.Name, "slots shifted on every Shift", shiftLoop, "on every path", "Shift can return without shifting")
@@ -539,7 +578,7 @@ func runC17(c *RuleCtx) {
 			// expiry happens before the shift
 			if lastLoop != nil {
 				ip, _ := g.Locate(shiftLoop.Init)
-				okd := g.DominatedByNode(ip, func(n ast.Node) bool { return n == ast.Node(lastLoop.X) })
+				okd := g.DominatedByNode(ip, func(n ast.Node) bool { return n == loopStart(lastLoop) })
 				c.Check(okd, "B14", f.Name, "expiry before shifting", shiftLoop, "the expiry loop dominates the shift", "slots are shifted before the last one is expired")
 			}
 		}
@@ -1025,6 +1064,56 @@ func counterAddend(p *Prog, f *Func, s Store) (*V, bool) {
 		}
 	}
 	return nil, false
+}
+
+// counterStep classifies a store to an indexed counter as +1 / -1 in any equivalent form
+// (c[k]++, c[k] += 1, c[k] = c[k] + 1, n := c[k] + 1; c[k] = n, and the same with -): returns +1, -1 or 0.
+func counterStep(p *Prog, f *Func, s Store) int {
+	res := p.R(f)
+	one := func(v *V) bool { return v != nil && v.IsConst("1") }
+	switch s.Kind {
+	case "elem-incdec":
+		if s.Tok == token.INC {
+			return 1
+		}
+		return -1
+	case "elem-opassign":
+		if s.RHS != nil && one(res.Val(s.RHS)) {
+			if s.Tok == token.ADD_ASSIGN {
+				return 1
+			}
+			if s.Tok == token.SUB_ASSIGN {
+				return -1
+			}
+		}
+	case "elem-assign":
+		if s.RHS == nil {
+			return 0
+		}
+		v := res.Val(s.RHS)
+		old := res.Val(s.LHS)
+		if v.Kind == "op" && len(v.Args) == 2 {
+			if v.Name == "+" && ((v.Args[0].Equal(old) && one(v.Args[1])) || (v.Args[1].Equal(old) && one(v.Args[0]))) {
+				return 1
+			}
+			if v.Name == "-" && v.Args[0].Equal(old) && one(v.Args[1]) {
+				return -1
+			}
+		}
+	}
+	return 0
+}
+
+// isCounterStepNode: n is a store to field stepping it by dir (+1/-1).
+func isCounterStepNode(p *Prog, f *Func, field string, dir int) func(ast.Node) bool {
+	return func(n ast.Node) bool {
+		for _, s := range p.AllStores() {
+			if s.Fn == f && s.Field == field && s.Node == n && counterStep(p, f, s) == dir {
+				return true
+			}
+		}
+		return false
+	}
 }
 
 // checkIHaveTruncation: B5.
